@@ -874,8 +874,7 @@ def OP_CALL(tape: Tape, stack: Stack, cache: dict) -> None:
         run_tape(subtape, stack, cache, additional_flags={**tape.flags})
     finally:
         subtape.pointer = init_pointer
-    if 'returned' in cache:
-        del cache['returned']
+    stack.returned = False
 
 def OP_IF(tape: Tape, stack: Stack, cache: dict) -> None:
     """Read the next 2 bytes from the tape, interpreting as an unsigned
@@ -897,7 +896,7 @@ def OP_IF(tape: Tape, stack: Stack, cache: dict) -> None:
             plugins=tape.plugins
         )
         run_tape(subtape, stack, cache, additional_flags=tape.flags)
-        if 'returned' in cache:
+        if stack.returned:
             OP_RETURN(tape, stack, cache)
 
 def OP_IF_ELSE(tape: Tape, stack: Stack, cache: dict) -> None:
@@ -924,7 +923,7 @@ def OP_IF_ELSE(tape: Tape, stack: Stack, cache: dict) -> None:
         plugins=tape.plugins,
     )
     run_tape(subtape, stack, cache, additional_flags=tape.flags)
-    if 'returned' in cache:
+    if stack.returned:
         OP_RETURN(tape, stack, cache)
 
 def OP_EVAL(tape: Tape, stack: Stack, cache: dict) -> None:
@@ -953,11 +952,11 @@ def OP_EVAL(tape: Tape, stack: Stack, cache: dict) -> None:
 
     # run
     run_tape(subtape, stack, cache, additional_flags=tape.flags)
-    if 'returned' in cache:
+    if stack.returned:
         if 'eval_return' in tape.flags and tape.flags['eval_return']:
             OP_RETURN(tape, stack, cache)
         else:
-            del cache['returned']
+            stack.returned = False
 
 def OP_NOT(tape: Tape, stack: Stack, cache: dict) -> None:
     """Pulls a value from the stack; performs bitwise NOT operation;
@@ -978,7 +977,7 @@ def OP_RANDOM(tape: Tape, stack: Stack, cache: dict) -> None:
 def OP_RETURN(tape: Tape, stack: Stack, cache: dict) -> None:
     """Ends the script."""
     tape.pointer = len(tape.data)
-    cache['returned'] = True
+    stack.returned = True
 
 def OP_SET_FLAG(tape: Tape, stack: Stack, cache: dict) -> None:
     """Read the next byte from the tape, interpreting as an unsigned int;
@@ -1209,7 +1208,7 @@ def OP_TRY_EXCEPT(tape: Tape, stack: Stack, cache: dict) -> None:
         )
         run_tape(subtape, stack, cache, additional_flags=tape.flags)
 
-    if 'returned' in cache:
+    if stack.returned:
         OP_RETURN(tape, stack, cache)
 
 def OP_LESS(tape: Tape, stack: Stack, cache: dict) -> None:
@@ -1290,8 +1289,8 @@ def OP_LOOP(tape: Tape, stack: Stack, cache: dict) -> None:
     while bytes_to_bool(condition):
         sert(count < tape.callstack_limit, 'OP_LOOP limit exceeded')
         run_tape(subtape, stack, cache, additional_flags={**tape.flags})
-        if 'returned' in cache:
-            del cache['returned']
+        if stack.returned:
+            stack.returned = False
             return
         subtape.reset_pointer()
         count += 1
@@ -2210,8 +2209,6 @@ def run_script(
     tape = Tape(script, callstack_limit=callstack_limit)
     stack = Stack(max_items=stack_max_items, max_item_size=stack_max_item_size)
     cache = {'timestamp': int(time()), **cache_vals}
-    if 'returned' in cache:
-        del cache['returned']
     tape.contracts = {**_contracts, **contracts}
     tape.plugins = {**_plugins, **plugins}
     run_tape(tape, stack, cache, additional_flags=additional_flags)
@@ -2262,8 +2259,7 @@ def run_auth_scripts(
             )
             tape.contracts = contracts
             tape.plugins = plugins
-            if 'returned' in cache:
-                del cache['returned']
+            stack.returned = False
             run_tape(tape, stack, cache)
             assert tape.has_terminated()
 
